@@ -256,6 +256,27 @@ func scanAgreement(a, b *core.Entry, path string) {
 	}
 }
 
+// propagatedFrom records, for the side whose content the cycle propagated, the
+// content it held when the cycle scanned it: if the cycle wrote the other
+// root so that it now equals that scan-time content, the content is
+// synchronized for both, even if its source was edited again in the middle of
+// the cycle.
+func propagatedFrom(source string, scanned, otherLeft, otherNow *core.Entry, path string) {
+	src, left, now := tree.At(scanned, path), tree.At(otherLeft, path), tree.At(otherNow, path)
+	if slim(src) != nil && !tree.ShallowEqual(slim(left), slim(now)) && tree.ShallowEqual(slim(now), slim(src)) {
+		synced[source][path] = slim(src)
+	}
+	seen := map[string]bool{}
+	for _, e := range []*core.Entry{src, left, now} {
+		for _, n := range tree.Names(e) {
+			if !seen[n] {
+				seen[n] = true
+				propagatedFrom(source, scanned, otherLeft, otherNow, tree.Join(path, n))
+			}
+		}
+	}
+}
+
 func destroyedOutsideAncestor(side string, pre, post, anc *core.Entry) string {
 	for _, d := range tree.Destroyed("", tree.Sync(pre), tree.Sync(post)) {
 		if !tree.ShallowEqual(tree.At(anc, d.Path), d.Entry) {
@@ -587,6 +608,8 @@ func (r *runner) runCase(p string, c *Case) (violation string, nontrivial bool, 
 		if synced != nil {
 			if flushErr == nil {
 				scanAgreement(pre.a, pre.b, "")
+				propagatedFrom("alpha", pre.a, pre.db, post.b, "")
+				propagatedFrom("beta", pre.b, pre.da, post.a, "")
 			}
 			updateSynced(pre.da, pre.db, post.a, post.b, "")
 		}
